@@ -91,6 +91,16 @@ def gen(rng, tier):
         yield Case("subpath", [tx(s)], "parse")
     for _ in range(300 if tier == "quick" else 20000):
         yield Case("subpath", [tx(rand_path(rng) + rng.choice(["", "", "", "/", "//", "x"]))], "parse")
+    # numeric junctions at and past 2^256 (and over-long digit strings) on every kind of object, public-only and converted ones included:
+    # the refusal is the PATH error whatever the object, as for a private object
+    big = [str(2**256 - 1), str(2**256), str(2**300), "0" * 40 + str(2**256), "9" * 79, "1" * 4301]
+    for i, j in enumerate(big):
+        sd = bytes(rng.randrange(256) for _ in range(32))
+        pubk = bytes(sr25519.pair_from_seed(sd)[0])
+        for pre in ("/", "/1/", "/a/b/"):
+            yield Case("substrate", ["pub", hx(pubk), COINS[i % len(COINS)], tx(pre + j), 99], "public-only-big-junction")
+            yield Case("substrate", ["seed", hx(sd), COINS[i % len(COINS)], tx(pre + j), 0], "converted-big-junction")
+            yield Case("substrate", ["seed", hx(sd), COINS[i % len(COINS)], tx(pre + j), 99], "private-big-junction")
     n = 40 if tier == "quick" else 3000
     for i in range(n):
         coin = COINS[i % len(COINS)]
